@@ -1693,6 +1693,7 @@ func runC07(c *Ctx) {
 	}
 
 	// A. empty and header-only documents: every document entry point, validator on and off
+	// (pinned: before commit 753581c UniversalDecoder.DecodeDocument indexed document[0] of an empty document and panicked)
 	for _, h := range []string{"", "81", "8100", "8101", "63", "6330", "633020", "43300a", "633120", "00", "ff", "8180", "81ff"} {
 		b, _ := hex.DecodeString(h)
 		cl := "header-only"
@@ -1859,6 +1860,7 @@ func runC07(c *Ctx) {
 	_ = fragEnd
 
 	// H. templates of every kind (supported and unsupported), one call and two calls on the same object
+	// (pinned: before commit d2cf257 the second call with an unsupported type blocked forever on the type cache's placeholder)
 	tdocs := map[string][]c07Doc{
 		"cbe": {{B: []byte{0x81, 0, 1}, Class: "template"}, {B: []byte{0x81, 0, 0x9a, 1, 2, 0x9b}, Class: "template"}, {B: []byte{0x81, 0, 0x99, 0x81, 'A', 1, 0x81, 'B', 0x81, 'x', 0x9b}, Class: "template"},
 			{B: []byte{0x81, 0, 0x82, 'h', 'i'}, Class: "template"}, {B: []byte{0x81, 0, 0x7d}, Class: "template"}, {B: []byte{0x81, 0, 0x97, 1, 2, 3}, Class: "template"}, {B: []byte{0x81, 0}, Class: "template"}},
@@ -1883,7 +1885,7 @@ func runC07(c *Ctx) {
 		}
 	}
 
-	// I. marshaling
+	// I. marshaling (unsupported kinds twice on the same Marshaler: pinned, see H; cyclic values: open defect)
 	for _, e := range marshalEntries {
 		for _, v := range append(append(append(append([]string{}, c07ValueNames...), c07TemplateNames...), c07UnsupportedNames...), c07CyclicNames...) {
 			if strings.HasPrefix(v, "v:cyclic") && !c.Thorough() &&
